@@ -1,2 +1,2 @@
 #include "mpi_run.hpp"
-namespace C13 { int run_q2_2d(const FEAT::Dist::Comm& c, FEAT::SimpleArgParser& a, bool s) { return run<FEAT::Shape::Hypercube<2>, FEAT::Space::Lagrange2::Element>(c, a, s); } }
+namespace C13 { int run_q2_2d(const FEAT::Dist::Comm& c, FEAT::SimpleArgParser& a, bool s) { return run<FEAT::Shape::Hypercube<2>, FEAT::Space::Lagrange2::Element, FEAT::Space::Lagrange1::Element>(c, a, s); } }
